@@ -447,6 +447,43 @@ Definition recv_frame (conv : chan) (st : rx) (bs : bytes) : rx := fst (recv_fra
 
 Definition queued (st : rx) : list bytes := map snd (r_queue st).
 
+(** ** Several transfers in progress at once *)
+
+(** One received transfer message, abstractly: which channel it came over,
+    which transfer it names, and the segment. *)
+Record item := mkItem { it_chan : chan; it_xid : N; it_last : bool; it_idx : N; it_data : bytes }.
+
+Definition item_key (it : item) : key := (it_chan it, it_xid it).
+
+Definition recv_item (st : rx) (it : item) : rx :=
+  fst (recv_seg (it_chan it) st (it_last it) (it_xid it) (it_idx it) (it_data it)).
+
+(** The bundle (if any) that taking in [it] completes. *)
+Definition item_out (st : rx) (it : item) : list bytes :=
+  match it_data it with
+  | [] => []
+  | _ :: _ =>
+      match snd (seg_step (plookup (item_key it) (r_prog st)) (it_last it) (it_idx it) (it_data it)) with
+      | Some full => [full]
+      | None => []
+      end
+  end.
+
+(** Bundles completed for key [k] while the items [l] are taken in from [st]. *)
+Fixpoint completions (k : key) (st : rx) (l : list item) : list bytes :=
+  match l with
+  | [] => []
+  | it :: t =>
+      (if key_eqb (item_key it) k then item_out st it else []) ++ completions k (recv_item st it) t
+  end.
+
+Definition for_key (k : key) (l : list item) : list item :=
+  filter (fun it => key_eqb (item_key it) k) l.
+
+(** The segment [s] of transfer [xid] arriving over [conv]. *)
+Definition seg_item (conv : chan) (xid : N) (s : N * bytes * bool) : item :=
+  let '(idx, d, last) := s in mkItem conv xid last idx d.
+
 (** ** Renderings for the correspondence files (printable values only;
     options are rendered as lists of length 0 or 1) *)
 
@@ -569,7 +606,7 @@ Definition run_xfer (c : N * N * N * N * list nat) :=
   let '(mtu, xid, seed, len, order) := c in
   let data := gdata seed len in
   let frames := send_transfer (Some mtu) xid data in
-  let arrival := map (fun i => ((1, 1, 255, @nil N), nth i frames [])) order in
+  let arrival := map (fun i => ((1, 73588229121, 73588229375, @nil N), nth i frames [])) order in
   let '(tr, fin) := recv_trace rx_init arrival in
   (map fst tr, map (fun d => (blen d, digest d)) (queued fin), r_signals fin,
    map o_xfer (r_prog fin), r_timers fin,
